@@ -30,8 +30,7 @@ from ir import Unsupported     # noqa: E402
 
 REPO = os.environ.get('VERIF_REPO', '/repo')
 CLANG = 'clang-14'
-BASE_CFLAGS = ['-O1', '-fno-vectorize', '-fno-slp-vectorize', '-fno-unroll-loops',
-               '-mllvm', '-inline-threshold=100000', '-Wno-everything',
+BASE_CFLAGS = ['-O1', '-fno-vectorize', '-fno-slp-vectorize', '-fno-unroll-loops', '-Wno-everything',
                '-I' + os.path.join(ROOT, 'include'), '-I' + os.path.join(ROOT, 'harness'),
                '-I' + REPO + '/include', '-I' + REPO + '/src',
                '-include', REPO + '/include/config.h', '-DHAVE_CONFIG_H', '-DURCU_VERIF']
@@ -59,7 +58,8 @@ def build_encoding(ob, work):
     """clang -> IR -> irseq -> C.  returns (cfile, info)"""
     src = os.path.join(ROOT, 'harness', ob['src'])
     ll = os.path.join(work, ob['name'] + '.ll')
-    cmd = [CLANG] + BASE_CFLAGS + ob.get('cflags', []) + ['-S', '-emit-llvm', src, '-o', ll]
+    inl = ['-mllvm', '-inline-threshold=100000'] if ob.get('inline_all', bool(ob.get('threads'))) else []
+    cmd = [CLANG] + BASE_CFLAGS + inl + ob.get('cflags', []) + ['-S', '-emit-llvm', src, '-o', ll]
     rc, out, err, _ = sh(cmd, timeout=300)
     if rc != 0:
         raise Unsupported('clang failed: ' + err[-2000:])
@@ -71,7 +71,7 @@ def build_encoding(ob, work):
         for i, e in enumerate(extra):
             esrc = e if os.path.isabs(e) else os.path.join(REPO, e)
             ell = os.path.join(work, '%s.x%d.ll' % (ob['name'], i))
-            rc, out, err, _ = sh([CLANG] + BASE_CFLAGS + ob.get('cflags', []) + ['-S', '-emit-llvm', esrc, '-o', ell], timeout=300)
+            rc, out, err, _ = sh([CLANG] + BASE_CFLAGS + inl + ob.get('cflags', []) + ['-S', '-emit-llvm', esrc, '-o', ell], timeout=300)
             if rc != 0:
                 raise Unsupported('clang failed on %s: %s' % (e, err[-2000:]))
             parts.append(ell)
@@ -183,7 +183,7 @@ def run_obligation(ob, workroot, keep=False):
     grc, gout, gerr, gwall = gfut.result()
     guard.shutdown()
     nlost = 0; nalt = 0
-    for ln in gout.split('\n'):
+    for ln in re.split(r'\n(?=\(\d+\) )', gout):       # one SSA statement per chunk (long ones wrap over several lines)
         k = len(re.findall(r'__CPROVER_memory(?!_leak)', ln))
         if not k:
             continue
@@ -288,7 +288,7 @@ def extract_choices(out):
 
 
 # ----------------------------------------------------------------------------- replay
-def native_replay(ob, cfile, choices, work):
+def native_replay(ob, cfile, choices, work, failures=()):
     """compile the generated C natively and re-execute the recorded schedule/inputs.
     returns (reproduced: bool, log)"""
     rp = os.path.join(work, 'replay_vals.c')
@@ -299,7 +299,10 @@ def native_replay(ob, cfile, choices, work):
     rc, out, err, _ = sh(['gcc', '-O0', '-w', '-DIRSEQ_NATIVE', '-DWITNESS_OFF', '-o', exe, cfile, rp], timeout=300)
     if rc != 0:
         return False, 'native build failed: ' + err[-1500:]
-    rc, out, err, _ = sh([exe], timeout=60)
+    rc, out, err, _ = sh([exe], timeout=20)
+    if rc == -9 and any('unwinding assertion' in (f.get('description') or '') for f in failures):
+        # the counterexample is a loop that exceeds every bound the unchanged tree needs: natively it simply does not return
+        return True, 'native run of the recorded inputs did not terminate within 20 s (non-termination reproduced) ' + out[-500:]
     return (rc == 42), 'rc=%d %s %s' % (rc, out[-1500:], err[-300:])
 
 
@@ -365,7 +368,7 @@ def main():
             sig = '%s: %s' % (r['name'], r['failures'][0]['description'])
             rep_ok, rep_log = (False, 'no trace')
             if r.get('trace_choices') is not None:
-                rep_ok, rep_log = native_replay(ob, r['cfile'], r['trace_choices'], os.path.dirname(r['cfile']))
+                rep_ok, rep_log = native_replay(ob, r['cfile'], r['trace_choices'], os.path.dirname(r['cfile']), r['failures'])
             r['replay'] = {'reproduced': rep_ok, 'log': rep_log[-600:]}
             path = os.path.join(ROOT, 'replays', '%s-%s.json' % (a.prop, r['name']))
             spec_dump = {k: v for k, v in ob.items() if not callable(v)}
